@@ -1,5 +1,6 @@
 import Rio.Model.Osfs
 import Rio.Generated.Facts
+import Rio.Proofs.OsfsTheory
 /-!
 # C07 — A based filesystem handle resolves paths like a chroot and never escapes
 
@@ -49,8 +50,7 @@ theorem C07_single_segment_nolinks (t : Tree_) (s : Bytes) (rl : Bool)
     simp [RelPath.join, single, hrel, hne]
   cases rl <;> simp [realpath, hup, hne, hs, realpathSegs, hj, hnot]
 
-/-- cycles end in an error, not in non-termination (tests on literal trees; the general statement is `C07_terminates`
-    in DESIGN.md's list of open obligations) -/
+/-- cycles end in an error, not in non-termination (tests on literal trees; the general statement is `C07_terminates` below) -/
 example : realpath [([0x6c, 0x31], .link [0x6c, 0x32]), ([0x6c, 0x32], .link [0x6c, 0x31])] ⟨[0x6c, 0x31], -1⟩ true
     = .err .misc ⟨[0x6c, 0x31], -1⟩ := by decide +kernel
 example : (resolveLink [([0x6c, 0x31], .link [0x6c, 0x31])] 3 [0x6c, 0x31] ⟨[0x6c, 0x31], -1⟩ []).1
@@ -60,5 +60,31 @@ example : realpath [([0x64], .dir), ([0x64, 0x2f, 0x61], .file), ([0x6c], .link 
     = .ok ⟨[0x64, 0x2f, 0x61], 1⟩ := by decide +kernel
 example : realpath [([0x61], .file), ([0x6c], .link [0x2e, 0x2e, 0x2f, 0x2e, 0x2e, 0x2f, 0x61])] ⟨[0x6c], -1⟩ true
     = .ok ⟨[0x61], -1⟩ := by decide +kernel
+
+
+/-! ## Termination and confinement for every tree (proofs in `Rio/Proofs/OsfsTheory.lean`) -/
+
+/-- **Symlink cycles end in an error, not in non-termination**: for every forest of directories, files and symlinks
+    (targets absolute, relative, over-dotted, dangling, cyclic, chained — `t` is arbitrary), every canonical path and
+    both resolution modes, the resolver never exhausts its fuel of `numLinks t + 2`: the `seen` list only ever holds
+    distinct locations of symlinks of the tree, so the depth of the recursion is bounded by their number. -/
+theorem C07_terminates (t : Tree_) (path : RelPath) (rl : Bool) (hc : path.Clean) :
+    realpath t path rl ≠ .outOfFuel :=
+  (realpath_ok t path rl hc).1
+
+/-- **Whenever it succeeds, the result lies inside the base**: the resolved path is the canonical value of a list of
+    normal components — no `..` survives (excess `..` is clamped at the base, absolute targets restart at the base). -/
+theorem C07_confined (t : Tree_) (path p : RelPath) (rl : Bool) (hc : path.Clean)
+    (h : realpath t path rl = .ok p) : Inside p ∧ p.goesUp = false ∧ p.Clean :=
+  have hi := (realpath_ok t path rl hc).2 p h
+  ⟨hi, hi.not_up, hi.clean⟩
+
+/-- the same for `ResolveLink` called directly (what `PlaceFile` uses), for any link location inside the base -/
+theorem C07_resolveLink (t : Tree_) (target : Bytes) (startingAt : RelPath)
+    (hin : Inside startingAt) (hl : IsLinkAt t startingAt) :
+    (resolveLink t (numLinks t + 2) target startingAt []).1 ≠ .outOfFuel ∧
+    ∀ p, (resolveLink t (numLinks t + 2) target startingAt []).1 = .ok p → Inside p := by
+  obtain ⟨a, _, _, d⟩ := resolveLink_ok t (numLinks t + 2) target startingAt [] ⟨by simp, by simp⟩ hin hl (by simp)
+  exact ⟨a, d⟩
 
 end Rio
